@@ -695,10 +695,24 @@ fn evaluate_cached(ai: usize, sty: &Sty) -> Vec<Mis> {
 /// The minimal style that shows the same mismatch clause: a single-component
 /// sub-style if one reproduces it, else the style itself.
 fn attribute(ai: usize, sty: &Sty, m: &Mis) -> (Sty, String) {
-    if sty.weight() > 1 {
-        for s in sty.singles() {
-            if let Some(m2) = evaluate_cached(ai, &s).into_iter().find(|x| x.clause == m.clause) {
-                return (s, m2.detail);
+    let singles = sty.singles();
+    if singles.len() > 1 {
+        for s in &singles {
+            if let Some(m2) = evaluate_cached(ai, s).into_iter().find(|x| x.clause == m.clause) {
+                return (*s, m2.detail);
+            }
+        }
+    }
+    if singles.len() > 2 {
+        // two-component sub-styles (an interaction of two attributes)
+        for i in 0..singles.len() {
+            for j in i + 1..singles.len() {
+                let (a, b) = (singles[i], singles[j]);
+                let pick = |x: Col, y: Col| if x != Col::Default { x } else { y };
+                let s = Sty { fg: pick(a.fg, b.fg), bg: pick(a.bg, b.bg), ul: pick(a.ul, b.ul), fx: a.fx | b.fx };
+                if let Some(m2) = evaluate_cached(ai, &s).into_iter().find(|x| x.clause == m.clause) {
+                    return (s, m2.detail);
+                }
             }
         }
     }
@@ -967,7 +981,17 @@ fn main_check(ctx: &Ctx) -> Outcome {
     // findings, simplest case first
     let mut fl: Vec<(&Key, &(String, u64))> = found.iter().collect();
     fl.sort_by_key(|(k, _)| (k.0, k.2.weight(), k.1.clone(), k.2));
-    for (k, (detail, n)) in fl.iter().take(200) {
+    // at most 25 findings per (adapter, clause), simplest first, so that a flood in one clause hides no other
+    let mut per_clause: HashMap<(usize, String), usize> = HashMap::new();
+    let mut kept = 0usize;
+    for (k, (detail, n)) in fl.iter() {
+        let c = per_clause.entry((k.0, k.1.clone())).or_insert(0);
+        *c += 1;
+        if *c > 25 || kept >= 400 {
+            out.extra_violation_count += 1;
+            continue;
+        }
+        kept += 1;
         out.findings.push(Finding {
             system: TARGETS[k.0].name.to_string(),
             clause: k.1.clone(),
@@ -975,9 +999,6 @@ fn main_check(ctx: &Ctx) -> Outcome {
             message: format!("{detail} [{n} enumerated style(s) show this mismatch and reduce to this case]"),
             replay: json!({"kind": "style", "adapter": TARGETS[k.0].name, "style": k.2.to_json(), "clause": k.1}),
         });
-    }
-    if fl.len() > 200 {
-        out.extra_violation_count += (fl.len() - 200) as u64;
     }
 
     // syntect -> anstyle
